@@ -22,7 +22,9 @@ RULE = (
     "renormalised to one (1e-9), R the expected reward, and (for a third of the cases) the exact V* of the returned "
     "matrices (numpy Howard PI) must agree within epsilon with a max_diff ValueIteration run on the functional "
     "problem. Non-trivial = some (a,s) row where >= 2 events with positive probability share a successor; "
-    "error-path cases are counted in their own class; distinct = case digest."
+    "error-path cases are counted in their own class; distinct = case digest. A sixth of the cases instead take a small "
+    "parameterisation of a shipped problem (S*A*E <= 4000) and compare the builder's matrices with matrices accumulated from "
+    "the independent scalar reference models (vf.ref_problems)."
 )
 ASSUMPTIONS = [
     "mass defects within 1e-9 relative of the tolerance are not generated (factor grid avoids 1.0)",
@@ -33,14 +35,19 @@ ASSUMPTIONS = [
 def plan(tier):
     if tier == "quick":
         return dict(shards=16, examples=480, time_budget_s=600, min_nontrivial=60, shrink_cap_s=90)
-    return dict(shards=16, examples=8000, time_budget_s=3400, min_nontrivial=1000)
+    return dict(shards=16, examples=8000, time_budget_s=3400, min_nontrivial=400)
 
 
 def strategy(tier, shard):
     from hypothesis import strategies as st
 
+    from vf import shipped
+
     @st.composite
     def cases(draw):
+        if draw(st.integers(0, 5)) == 0:
+            kind = draw(st.sampled_from(["forest", "de_moor", "hendrix", "mirjalili"]))
+            return dict(shipped=dict(kind=kind, params=draw(shipped.param_strategy(kind, 4000))))
         spec = draw(mdp_specs(max_states=9, allow_pol0=False))
         nS, nA = spec["nS"], spec["nA"]
         tol = draw(st.sampled_from([1e-8, 1e-6, 1e-4, 1e-4, 1e-3, 1e-2, 1e-1]))
@@ -55,10 +62,56 @@ def strategy(tier, shard):
     return cases()
 
 
+def judge_shipped(case):
+    """Shipped problems: the builder's matrices against matrices accumulated from the independent scalar models."""
+    import vf.sut  # noqa: F401
+    from vf import ref_problems as rp
+    from vf import shipped
+
+    kind, params = case["shipped"]["kind"], case["shipped"]["params"]
+    classes = ["shipped", f"shipped-{kind}"]
+    try:
+        problem = shipped.build_sut(kind, params)
+        P, R = problem.build_transition_and_reward_matrices()
+    except Exception as e:
+        return verdict_fail(sut_bucket(e), f"{kind} {params}: raised {e!r}", classes=classes)
+    ref = rp.REFS[kind](**params)
+    S, A, E = ref.states(), ref.actions(), ref.events()
+    index = {tuple(s): i for i, s in enumerate(S)}
+    nS, nA = len(S), len(A)
+    Pr = np.zeros((nA, nS, nS))
+    Rr = np.zeros((nS, nA))
+    for i, s in enumerate(S):
+        for j, a in enumerate(A):
+            for e in E:
+                p = ref.prob(s, a, e)
+                if p == 0.0:
+                    continue
+                ns, r = ref.step(s, a, e)
+                Pr[j, i, index[tuple(ns)]] += p
+                Rr[i, j] += p * r
+    P, R = np.asarray(P, dtype=np.float64), np.asarray(R, dtype=np.float64)
+    if P.shape != Pr.shape or R.shape != Rr.shape:
+        return verdict_fail("matrix-shape", f"{kind}: P {P.shape} R {R.shape}, expected {Pr.shape} {Rr.shape}", classes=classes)
+    if np.max(np.abs(P.sum(axis=2) - 1.0)) > 1e-9:
+        return verdict_fail("rows-do-not-sum-to-one", f"{kind} {params}", classes=classes)
+    if np.max(np.abs(P - Pr)) > 5e-5:
+        i = np.unravel_index(int(np.argmax(np.abs(P - Pr))), P.shape)
+        return verdict_fail("transition-entry-wrong", f"{kind} {params}: P[a={i[0]}, s={S[i[1]]}, s'={S[i[2]]}] = {P[i]!r}, reference model {Pr[i]!r}", classes=classes)
+    rscale = 1 + float(np.max(np.abs(Rr)))
+    if np.max(np.abs(R - Rr)) > 1e-4 * rscale:
+        i = np.unravel_index(int(np.argmax(np.abs(R - Rr))), R.shape)
+        return verdict_fail("reward-entry-wrong", f"{kind} {params}: R[s={S[i[0]]}, a={A[i[1]]}] = {R[i]!r}, reference model {Rr[i]!r}", classes=classes)
+    return verdict_ok(nontrivial=nS * nA >= 4, classes=classes, sample=dict(kind=kind, params=params, S=nS, A=nA, E=len(E)))
+
+
 def judge(case):
     import copy
 
     from vf import sut
+
+    if case.get("shipped"):
+        return judge_shipped(case)
 
     spec = copy.deepcopy(case["spec"])
     nS, nA, nE = spec["nS"], spec["nA"], spec["nE"]
